@@ -84,6 +84,20 @@ theorem indexOf?_lt (nodes : List RawNode) (d : String) (i : Nat) (h : indexOf? 
   · cases h; assumption
   · cases h
 
+/-! ### A decidable check for `WF` (used for concrete examples) -/
+
+def wfCheck (g : Graph) : Bool := g.all fun n => n.resolved.all (· < g.length)
+
+theorem wf_of_wfCheck {g : Graph} (h : wfCheck g = true) : AL.Spec.WF g := by
+  intro v w hw
+  unfold Graph.succ at hw
+  cases hg : g[v]? with
+  | none => simp [hg] at hw
+  | some n =>
+    simp only [hg, Option.map_some, Option.getD_some] at hw
+    simp only [wfCheck, List.all_eq_true, decide_eq_true_eq] at h
+    exact h n (List.mem_of_getElem? hg) w hw
+
 /-! ### `countNew` -/
 
 theorem countNew_le_length (st : List Status) : countNew st ≤ st.length := by
